@@ -23,6 +23,9 @@ func WrapError(err error) error {
 	}
 	twerr := twirp.NewError(code, err.Error())
 	twerr = twerr.WithMeta("cause", fmt.Sprintf("%T", err)) // to easily tell apart wrapped internal errors from explicit ones
+	if id := chord.ErrorIdentity(err); id != "" {
+		twerr = twerr.WithMeta(chord.ErrorMetaKey, id)
+	}
 	return twirp.WrapError(twerr, err)
 }
 
@@ -35,6 +38,9 @@ func WrapErrorKV(key string, err error) error {
 	}
 	twerr := twirp.NewError(code, err.Error())
 	twerr = twerr.WithMeta("cause", fmt.Sprintf("%T", err)) // to easily tell apart wrapped internal errors from explicit ones
+	if id := chord.ErrorIdentity(err); id != "" {
+		twerr = twerr.WithMeta(chord.ErrorMetaKey, id)
+	}
 	twerr = twerr.WithMeta("kv", key)
 	return twirp.WrapError(twerr, err)
 }
